@@ -113,11 +113,13 @@ func (w *zzvWorld) Evict(ctx context.Context, pod *corev1.Pod, opts framework.Ev
 		}
 	}
 	if w.isSource(i) {
+		zzverif.Reach("eviction-in-node-pass")
 		zzverif.Assert(w.usage[i]-w.evicted[i] > zzvHigh, "a pod is evicted only from a node whose estimated usage is above its high threshold at that moment")
 		zzverif.Assert(anyNodeDest, "a pod is evicted only if some other node is below the low thresholds")
 		zzverif.Assert(nodeHead-w.nodePassTotal > 0, "eviction stops when the headroom of the underused nodes is used up")
 		zzverif.Assert(w.prodPassTotal == 0, "the node pass precedes the prod pass")
 	} else {
+		zzverif.Reach("eviction-in-prod-pass")
 		zzverif.Assert(w.isProdSrc(i), "a pod is evicted only from an overloaded node")
 		zzverif.Assert(p.prod, "the prod pass evicts prod pods only")
 		zzverif.Assert(w.prodUsage[i]-w.evictedProd[i] > zzvProdHigh, "a prod pod is evicted only from a node whose estimated prod usage is above its prod high threshold at that moment")
